@@ -85,6 +85,25 @@ def _opmap_entries(fn, int_branch):
     return ents
 
 
+def _enum_entries(fn):
+    """[(key, value-node)] of `op_map.update({...})` in the `elif isinstance(expr.typ, types.EnumType):` branch of
+    eval_binop (operands of enumerated type, C11 6.7.2.2); [] when the branch does not exist"""
+    ents = []
+    for n in ast.walk(fn):
+        if isinstance(n, ast.If) and ast.unparse(n.test) == 'isinstance(expr.typ, types.EnumType)':
+            for st in n.body:
+                c = st.value if isinstance(st, ast.Expr) else None
+                if isinstance(c, ast.Call) and ast.unparse(c.func) == 'op_map.update' and len(c.args) == 1 \
+                        and isinstance(c.args[0], ast.Dict) and not c.keywords:
+                    for k, v in zip(c.args[0].keys, c.args[0].values):
+                        if not (isinstance(k, ast.Constant) and isinstance(k.value, str)):
+                            raise py2coq.Unsupported('op_map.update key')
+                        ents.append((k.value, v))
+                else:
+                    raise py2coq.Unsupported('statement in the EnumType branch of eval_binop: ' + ast.unparse(st))
+    return ents
+
+
 HELPERS = [{'name': 'c_div'}, {'name': 'c_rem'}, {'name': 'c_wrap', 'params': {'signed': 'bool'}}]
 
 
@@ -112,6 +131,20 @@ def regen(ctx):
                 else:
                     raise py2coq.Unsupported('op_map[%r] is neither a lambda nor a module function' % key)
             tables[prefix] = rows
+            if prefix == 'binop':
+                erows = []
+                for i, (key, v) in enumerate(_enum_entries(fn)):
+                    if isinstance(v, ast.Name) and v.id in fns:
+                        erows.append((key, v.id))
+                    elif isinstance(v, ast.Lambda) and len(v.args.args) == 2 and not v.args.defaults:
+                        name = 'binop_e_%d' % i
+                        parts.append('def %s(%s):\n    return %s\n' % (name, ', '.join(a.arg for a in v.args.args),
+                                                                      ast.unparse(v.body)))
+                        entries.append({'name': name})
+                        erows.append((key, name))
+                    else:
+                        raise py2coq.Unsupported('enum op_map[%r] is neither a lambda nor a module function' % key)
+                tables['binop_enum'] = erows
         syn = os.path.join(ctx.work, 'ceval_syn.py')
         with open(syn, 'w') as f:
             f.write('\n\n'.join(parts))
@@ -123,7 +156,7 @@ def regen(ctx):
         raise TieBroken(str(ex))
     text = text.replace(os.path.relpath(syn, '/repo'), 'ppci/lang/c/eval.py (module functions + op_map lambdas)')
     out = [text, '']
-    for prefix, ty in (('unop', 'Z -> result Z'), ('binop', 'Z -> Z -> result Z')):
+    for prefix, ty in (('unop', 'Z -> result Z'), ('binop', 'Z -> Z -> result Z'), ('binop_enum', 'Z -> Z -> result Z')):
         rows = []
         for key, name in tables[prefix]:
             vs = 'x' if prefix == 'unop' else 'x y'
@@ -423,9 +456,50 @@ def search(ctx, cases=None):
                                    'actual': out.v.hex() if isinstance(out, OkV) else detail})
                 else:
                     stats['agree'] += 1
+    enum_operands(ctx, stats, deep)
     ctx.cov['distinct_nontrivial'] += len(nontriv)
     ctx.cov['stages']['search'] = stats
     return cases
+
+
+def enum_operands(ctx, stats, deep):
+    """operands of enumerated type (both / left only / right only) for every binary operator, with negative values,
+    in every constant context: global initializer, enumerator value, array bound, case label (duplicate detection).
+    Enumeration constants have type int (C11 6.7.2.2p3), so the oracle evaluates the same expression over int."""
+    pairs = [(-7, 2), (7, -2), (-8, 3), (-7, -2), (5, 5)] if deep else [(-7, 2), (7, -2), (-8, 3)]
+    n = 0
+    for march in (TARGETS if deep else ['x86_64', 'msp430']):
+        dm, _, little = target_dm(march)
+        for a, b in pairs:
+            decl = 'enum E { EA = %d, EB = %d };' % (a, b)
+            for op in S.BINOPS:
+                v = S.ev(dm, S.desugar(dm, ('bin', op, ('lit', 'int', a), ('lit', 'int', b))))
+                if v is None:
+                    continue
+                for kind, l, r in (('both', 'EA', 'EB'), ('left', 'EA', '(%d)' % b), ('right', '(%d)' % a, 'EB')):
+                    e = '%s %s %s' % (l, op, r)
+                    progs = [('global', '%s int g = %s;' % (decl, e), OkV(spec_bytes(dm, little, 'int', v))),
+                             ('enumerator', '%s enum F { FX = %s }; int g = FX;' % (decl, e), OkV(spec_bytes(dm, little, 'int', v))),
+                             ('case', '%s int f(int x) { switch (x) { case %s: return 1; case %d: return 2; default: return 0; } return 3; } int g = 1;'
+                              % (decl, e, v), Diag)]
+                    if 1 <= v + 20 <= 64:
+                        progs.append(('array', '%s char arr[(%s) + 20]; int g = sizeof(arr);' % (decl, e),
+                                      OkV(spec_bytes(dm, little, 'int', v + 20))))
+                    for ctxname, src, exp in progs:
+                        _, out, detail = front_end(march, src)
+                        n += 1
+                        ok = (exp is Diag and out is Diag) or (isinstance(exp, OkV) and isinstance(out, OkV) and out.v == exp.v)
+                        if ok:
+                            stats['agree'] += 1
+                            continue
+                        stats['violations'] += 1
+                        ctx.violation({'fn': 'enum-typed operands (%s) in %s' % (kind, ctxname), 'args': [march, src],
+                                       'expected': 'duplicate case diagnostic' if exp is Diag else exp.v.hex(),
+                                       'expected_value': v,
+                                       'actual': out.v.hex() if isinstance(out, OkV) else (detail or str(out)),
+                                       'how_to_replay': 'ppci.api.c_to_ir(io.StringIO(%r), %r); read the image of g' % (src, march)})
+    ctx.cov['evaluations'] += n
+    stats['enum_operand_programs'] = n
 
 
 def spec_cross_check(ctx, cases):
